@@ -175,6 +175,75 @@ pub fn run(thorough: bool, seed: u64, driver: &str, rep: &mut Report) {
             let _ = std::fs::remove_file(&file);
         }
     }
+    // ---- several input files in one invocation: `stats F1 F2 F3` prints one row per file (prefixed by the file name), `compare REF
+    // C1 C2 C3` one numbered row per compared file, `rescale k F1 F2 -o DIR` one output file per input — each row / file must be
+    // what the single-file invocation gives for that file, whatever its position in the list ----
+    for round in 0..(if thorough { 40 } else { 6 }) {
+        let nl = rng.range(4, 9);
+        let mut files: Vec<String> = vec![];
+        let mut texts: Vec<String> = vec![];
+        let names = ["A", "B", "C", "D", "E", "F", "G", "H", "I"];
+        for _ in 0..rng.range(2, 4) {
+            let mut t = random_shape(&mut rng, nl * 2);
+            let mut tries = 0;
+            while t.n_leaves() != nl && tries < 300 { t = random_shape(&mut rng, nl * 2); tries += 1; }
+            if t.n_leaves() != nl { continue; }
+            let mut ln: Vec<&str> = names[..nl].to_vec();
+            rng.shuffle(&mut ln);
+            t.for_each_mut(&mut |r: &mut Rose, root: bool, _d: usize| {
+                r.name = if r.kids.is_empty() { ln.pop().map(|x| x.to_string()) } else { None };
+                r.len = if root { None } else { Some(gen_len(&mut rng, LenKind::Dyadic)) };
+                r.comment = None;
+            }, true, 0);
+            let text = t.newick();
+            files.push(tmp(&dir, &mut k, &text));
+            texts.push(text);
+        }
+        if files.len() < 2 { continue; }
+        let ctx0 = format!("tree files: {}", texts.join(" | "));
+        rep.case(&ctx0, true);
+        rep.count("runs:several-files");
+        // stats
+        let single: Vec<String> = files.iter().map(|f| run_cli(&["stats", f]).stdout.lines().nth(1).unwrap_or("").to_string()).collect();
+        let mut args = vec!["stats"];
+        for f in files.iter() { args.push(f); }
+        let r = run_cli(&args);
+        let lines: Vec<&str> = r.stdout.lines().collect();
+        let ok = r.code == Some(0) && lines.len() == files.len() + 1 && lines[0] == "filename\theight\tdiameter\tnodes\ttips\trooted\tbinary\tncherries\tcolless\tsackin"
+            && (0..files.len()).all(|i| lines[i + 1] == format!("{:?}\t{}", std::path::Path::new(&files[i]), single[i]));
+        if !ok {
+            rep.oracle("stats", "several-files:rows-differ-from-single-file-runs", &format!("{ctx0}\nphylotree stats F1 .. F{}", files.len()), &format!("exit {:?}\n{}\nsingle-file rows: {single:?}", r.code, r.stdout));
+        }
+        // compare: first file is the reference
+        let single: Vec<String> = files[1..].iter().map(|f| run_cli(&["compare", &files[0], f]).stdout.lines().nth(1).unwrap_or("").to_string()).collect();
+        let mut args = vec!["compare"];
+        for f in files.iter() { args.push(f); }
+        let r = run_cli(&args);
+        let lines: Vec<&str> = r.stdout.lines().collect();
+        let ok = r.code == Some(0) && lines.len() == files.len() && (0..files.len() - 1).all(|i| {
+            // the single run numbers its only row 0
+            let want = single[i].strip_prefix("0\t").map(|rest| format!("{i}\t{rest}"));
+            Some(lines[i + 1].to_string()) == want
+        });
+        if !ok {
+            rep.oracle("compare", "several-files:rows-differ-from-single-file-runs", &format!("{ctx0}\nphylotree compare REF C1 .. C{}", files.len() - 1), &format!("exit {:?}\n{}\nsingle-file rows: {single:?}", r.code, r.stdout));
+        }
+        // rescale into a directory
+        let out_dir = format!("{dir}/multi{round}");
+        let _ = std::fs::remove_dir_all(&out_dir);
+        let single: Vec<String> = files.iter().map(|f| run_cli(&["rescale", "2", f]).stdout.trim_end_matches('\n').to_string()).collect();
+        let mut args = vec!["rescale", "2"];
+        for f in files.iter() { args.push(f); }
+        args.push("-o");
+        args.push(&out_dir);
+        let r = run_cli(&args);
+        let got: Vec<String> = files.iter().map(|f| std::fs::read_to_string(format!("{out_dir}/{}", std::path::Path::new(f).file_name().unwrap().to_string_lossy())).unwrap_or_else(|_| "<missing>".into())).collect();
+        if r.code != Some(0) || got != single {
+            rep.oracle("rescale", "several-files:outputs-differ-from-single-file-runs", &format!("{ctx0}\nphylotree rescale 2 F1 .. F{} -o DIR", files.len()), &format!("exit {:?}\nfiles: {got:?}\nsingle-file outputs: {single:?}", r.code));
+        }
+        let _ = std::fs::remove_dir_all(&out_dir);
+        for f in files.iter() { let _ = std::fs::remove_file(f); }
+    }
     let n_trees = if thorough { 600 } else { 60 };
     for ti in 0..n_trees {
         let size = rng.range(2, 30);
